@@ -983,7 +983,48 @@ def r_config_once(repo, rep, R):
                                                'penalty / beam / n-best settings' if consumes else 'sentences of one call may be parsed with different settings'))
 
 
+def r_kwargs_not_captured(repo, rep, R):
+    """the options reach the compiled run() as keyword arguments and are read there from its `**kwargs` dictionary (by
+    run itself: the max_length test; by the configuration reader: beta, nbest, ..): none of these names may also be a
+    named parameter of run -- a named parameter takes the value out of the dictionary, and the read falls back to
+    'absent' / the default without any error"""
+    mod = pyx.load(repo)
+    run = mod.get('run')
+    kw = run.args.kwarg.arg if run.args.kwarg is not None else None
+    named = {a.arg for a in run.args.posonlyargs + run.args.args + run.args.kwonlyargs}
+    if kw is None:
+        return
+    readers = [(run, kw)]
+    try:
+        ic, _cfg, kwp = config_reader(mod)
+        readers.append((ic, kwp))
+    except AnalysisError:
+        pass
+    keys = {}
+    for fn, name in readers:
+        for n in ast.walk(fn):
+            k = None
+            if isinstance(n, ast.Subscript) and isinstance(n.value, ast.Name) and n.value.id == name and isinstance(n.slice, ast.Constant):
+                k = n.slice.value
+            elif isinstance(n, ast.Call) and isinstance(n.func, ast.Attribute) and isinstance(n.func.value, ast.Name) and n.func.value.id == name \
+                    and n.func.attr in ('get', 'pop', 'setdefault') and n.args and isinstance(n.args[0], ast.Constant):
+                k = n.args[0].value
+            elif isinstance(n, ast.Compare) and len(n.ops) == 1 and isinstance(n.ops[0], (ast.In, ast.NotIn)) and isinstance(n.left, ast.Constant) \
+                    and isinstance(n.comparators[0], ast.Name) and n.comparators[0].id == name:
+                k = n.left.value
+            if isinstance(k, str):
+                keys.setdefault(k, n.lineno)
+    captured = sorted(k for k in keys if k in named)
+    rep.check(not captured, R, '%s:%s run' % (REL, run.lineno), 'run:kwargs-not-captured',
+              'none of the %d option names read from **%s is also a named parameter of run' % (len(keys), kw),
+              'the option(s) %s are read from **%s (line %s) but run() also declares them as named parameters: the value never reaches the dictionary, the read sees the '
+              'option as absent (an over-long sentence is searched instead of getting the placeholder / the default is used whatever the caller passed)'
+              % (captured, kw, [keys[k] for k in captured]))
+    return len(keys)
+
+
 def r_config_plumbing(repo, rep, R):
+    r_kwargs_not_captured(repo, rep, R)
     """option names travel unchanged: parsing.run kwargs -> _parsing.run(**kwargs) -> init_config -> struct config."""
     r_config_once(repo, rep, R)
     mod = pyx.load(repo)
